@@ -773,7 +773,11 @@ class StabilizerCode(metaclass=ABCMeta):
         code_name = self.id
         picture = 'rotated' if rotated_picture else 'kitaev'
 
-        representation = data[code_name]['stabilizers'][picture][stab_type]
+        stabilizers = data[code_name]['stabilizers']
+        # Codes without a dedicated rotated picture leave that table empty
+        representation = (stabilizers[picture] or stabilizers['kitaev'])[
+            stab_type
+        ]
         representation['type'] = stab_type
         representation['location'] = location
 
